@@ -13,7 +13,7 @@ ALT_NS = OrderedDict([(R.XSD, "xsd")])           # namespaces_dict without the d
 
 
 def _structure(name):
-    return {s["name"]: s for s in T.structures("thorough") + T.namespace_structures()}[name]
+    return {s["name"]: s for s in T.structures("thorough") + T.namespace_structures() + T.label_clash_structures()}[name]
 
 
 # ------------------------------------------------------------------------- scenarios
